@@ -484,8 +484,11 @@ example : (∀ i j, i < 3 → j < 3 → tri i j = tri j i) ∧ (∀ i, i < 3 →
   (Kronecker products of the graphiq gate matrices: `C07.gate_matrices_are_kronecker_products`), `Hilbert.rho n (STab.zero n)` is
   `|0…0⟩⟨0…0|` (`Hilbert.rho_zero`).  `graphStateMat n A := U |0…0⟩⟨0…0| U†` with `U` = `H` on every qubit, then `CZ` on every edge. -/
 
-/-- **graph → stabilizer produces the graph state, as a matrix** (every n, every simple graph): the density matrix of the tableau
-    `[I | A]` is `CZ_E H^{⊗n} |0…0⟩⟨0…0| H^{⊗n} CZ_E` -/
+/-- **graph → stabilizer produces the graph state, as a matrix; stabilizer → density of it is `|G⟩⟨G|`** (every n, every simple graph): the
+    density matrix of the tableau `[I | A]` — `Hilbert.rho`, the ordered product `∏_v (1 + K_v)/2`, which is literally what
+    `_stabilizer_to_density_pure` computes (`rho = rho @ (stabilizer_elem + I)/2` over the generators, `stabilizer_elem` the Kronecker
+    product of Pauli matrices that `C07.pauli_matrix_is_kronecker_product` identifies with `pauliMat`; the sign vector, which that
+    function ignores — D9 —, is zero here) — is `CZ_E H^{⊗n} |0…0⟩⟨0…0| H^{⊗n} CZ_E` -/
 theorem graph_to_stabilizer_is_graph_state (n : Nat) (adj : Adj) (hsym : ∀ i j, i < n → j < n → adj i j = adj j i)
     (hirr : ∀ i, i < n → adj i i = false) : Hilbert.rho n (graphSTab n adj) = graphStateMat n adj :=
   rho_graphSTab n adj hsym hirr
@@ -601,7 +604,8 @@ example : Matrix.trace (projOff 3 0 2 * graphStateMat 3 tri * projOff 3 0 2) = (
 
 /-- **every conversion among graph, stabilizer and density-matrix form keeps the graph state** (every n ≥ 1, every simple graph `G`;
     conversion functions as modelled, density matrices as exact `2ⁿ × 2ⁿ` complex matrices):
-    * g → s and g → dm both denote `|G⟩⟨G|` (`graphStateMat`), hence s → dm of `graph_to_stabilizer(G)` is the matrix g → dm builds;
+    * g → s and g → dm both denote `|G⟩⟨G|` (`graphStateMat`); s → dm (`_stabilizer_to_density_pure`: the ordered product
+      `∏ (1 + K_v)/2 = Hilbert.rho`) of `graph_to_stabilizer(G)` is the matrix g → dm builds;
     * s → g: `stabilizer_to_graph(validate=True)` on `graph_to_stabilizer(G)` returns `G`;
     * dm → g: for every pair `i < j` the negativity test of `_density_to_graph_pure` on `|G⟩⟨G|` (the exact value of the quantity the
       code thresholds) is positive exactly on the edges of `G` — so dm → g returns `G`, and dm → s = g → s ∘ dm → g returns
